@@ -132,4 +132,54 @@ Section Decode.
       replace (b0 :: bufs') with ([] ++ (b0 :: bufs') ++ []) at 1 by (now rewrite app_nil_r).
       eapply args_recon; eauto. reflexivity.
   Qed.
+  (** ** ACK packets with binary *)
+  Theorem decode_encode_ack h x e tys sargs :
+    wfv x = true -> h_type h = 3 -> hb 2 x = true ->
+    shape x = BArr sargs -> args_ok tys sargs = true ->
+    header_ok (e_header e) ->
+    encode marshal unmarshal max_att h (Some x) = Ok e ->
+    exists p atts,
+      e_frames e = (encode_header (e_header e) ++ p) :: atts /\
+      atts = leaves (shape x) /\
+      e_header e = mkHeader 6 (h_nsp h) (h_id h) (Z.of_nat (length atts)) /\
+      feed unmarshal None 0 (e_frames e) =
+        Ok ([(length atts, (e_header e, [], p :: atts))], None) /\
+      decode marshal unmarshal (e_header e) (p :: atts) tys = Ok (views tys sargs).
+  Proof.
+    unfold wfv. intros Wf T2 HB SH AO HO E.
+    apply andb_true_iff in Wf as [Wf HX]. apply andb_true_iff in Wf as [Wf W].
+    apply andb_true_iff in Wf as [C S].
+    unfold encode in E. destruct (negb (arg_ok x)); [discriminate|].
+    rewrite T2, HB in E. cbn [N.eqb Pos.eqb orb andb] in E.
+    destruct (dv marshal false x 0) as [[[m bufs] n]| |] eqn:D; try discriminate.
+    destruct ((0 <? max_att)%Z && (max_att <? Z.of_N n)%Z); [discriminate|].
+    destruct (dv_spec marshal unmarshal H1 false x 0 m bufs n C S W D) as (j & J1 & J2 & J3 & J4).
+    unfold encode_string in E. rewrite J1 in E. cbn [rbind] in E. inversion E; subst e; clear E.
+    cbn [e_frames e_header] in *.
+    assert (NE : bufs <> []) by (rewrite J3; eapply hb_leaves; eauto).
+    exists (marshal j), bufs.
+    assert (HN : Z.of_N n = Z.of_nat (length bufs)) by lia.
+    rewrite HN in *.
+    split; [reflexivity|]. split; [exact J3|]. split; [reflexivity|].
+    (* the JSON part *)
+    rewrite SH in J2. rewrite extract_arr in J2.
+    destruct (ex_list sargs 0) as [[js bs0] n0] eqn:EL. inversion J2; subst j bs0 n0; clear J2.
+    set (h' := mkHeader 6 (h_nsp h) (h_id h) (Z.of_nat (length bufs))) in *.
+    (* the first frame *)
+    assert (PH : parse_header (unm_names unmarshal) (encode_header h' ++ marshal (JArr js)) =
+                 Ok (h', marshal (JArr js), [])).
+    { rewrite parse_encode_header_full; [|exact HO|].
+      - reflexivity.
+      - destruct (H3 js) as (r & ->). split; [left; reflexivity|intros; discriminate]. }
+    split.
+    - cbn [feed add]. rewrite PH. cbn [rbind h_type h' is_binary N.eqb Pos.eqb orb negb h_att].
+      assert (Z0 : (Z.of_nat (length bufs) =? 0)%Z = false).
+      { destruct bufs; [contradiction|]. simpl length. lia. }
+      rewrite Z0. cbn [rbind]. rewrite (feed_atts bufs h' [] [marshal (JArr js)] 1 NE).
+      cbn [rbind app]. replace (1 + length bufs - 1)%nat with (length bufs) by lia. reflexivity.
+    - unfold decode. destruct bufs as [|b0 bufs']; [contradiction|].
+      rewrite H1. cbn [h_type h' is_event N.eqb Pos.eqb orb].
+      replace (b0 :: bufs') with ([] ++ (b0 :: bufs') ++ []) at 1 by (now rewrite app_nil_r).
+      eapply args_recon; eauto. reflexivity.
+  Qed.
 End Decode.
